@@ -169,19 +169,25 @@ theorem setWhileBN_walk (t : Text) (hwf : t.WF) (f : Nat → List Nat) (v : Bidi
 /-! ### `setWhileNsmOrBN` -/
 
 theorem setWhileNsmOrBN_block (ocs : Classes) (v : BidiClass) (rest : List Nat) :
-    ∀ (blk : List Nat) (P : Classes), blk.Nodup →
-    (∀ u ∈ blk, (cget ocs u == NSM || cget P u == BN) = true) →
+    ∀ (blk : List Nat) (P : Classes),
+    (∀ u ∈ blk, (cget ocs u == NSM) = true) →
     setWhileNsmOrBN ocs P (blk ++ rest) v = setWhileNsmOrBN ocs (setAll P blk v) rest v
-  | [], _, _, _ => rfl
-  | u :: blk, P, hnd, h => by
-    have hnd' := List.nodup_cons.1 hnd
-    rw [List.cons_append, setWhileNsmOrBN, h u (by simp)]
-    simp only [if_true]
-    rw [setWhileNsmOrBN_block ocs v rest blk (P.set u v) hnd'.2]
-    · rfl
-    · intro u' hu'
-      rw [cget_set_ne _ _ (by intro e; subst e; exact hnd'.1 hu')]
-      exact h u' (by simp [hu'])
+  | [], _, _ => rfl
+  | u :: blk, P, h => by
+    rw [List.cons_append, setWhileNsmOrBN, if_pos (h u (by simp))]
+    rw [setWhileNsmOrBN_block ocs v rest blk (P.set u v) (fun u' hu' => h u' (by simp [hu']))]
+    rfl
+
+/-- a block of removed (non-NSM) units is stepped over without a write -/
+theorem setWhileNsmOrBN_skip (ocs : Classes) (v : BidiClass) (rest : List Nat) :
+    ∀ (blk : List Nat) (P : Classes),
+    (∀ u ∈ blk, (cget ocs u == NSM) = false ∧ (cget ocs u).removedByX9 = true) →
+    setWhileNsmOrBN ocs P (blk ++ rest) v = setWhileNsmOrBN ocs P rest v
+  | [], _, _ => rfl
+  | u :: blk, P, h => by
+    rw [List.cons_append, setWhileNsmOrBN, (h u (by simp)).1, (h u (by simp)).2]
+    simp only [Bool.false_eq_true, if_false, if_true]
+    exact setWhileNsmOrBN_skip ocs v rest blk P (fun u' hu' => h u' (by simp [hu']))
 
 theorem length_setWhileNsmOrBN (ocs : Classes) (v : BidiClass) :
     ∀ (it : List Nat) (P : Classes), (setWhileNsmOrBN ocs P it v).length = P.length
@@ -190,7 +196,9 @@ theorem length_setWhileNsmOrBN (ocs : Classes) (v : BidiClass) :
     rw [setWhileNsmOrBN]
     split
     · rw [length_setWhileNsmOrBN ocs v it]; simp
-    · rfl
+    · split
+      · exact length_setWhileNsmOrBN ocs v it P
+      · rfl
 
 theorem setWhileNsmOrBN_walk (t : Text) (hwf : t.WF) (f : Nat → List Nat) (os : Classes)
     (hlo : os.length = t.segs.length) (v : BidiClass) :
@@ -200,14 +208,19 @@ theorem setWhileNsmOrBN_walk (t : Text) (hwf : t.WF) (f : Nat → List Nat) (os 
   | k :: ks, xs, hl, hw => by
     obtain ⟨hk, hb⟩ := hw k (by simp)
     rw [List.flatMap_cons]
-    cases hc : (cget os k == NSM || cget xs k == BN)
-    · obtain ⟨u, r, hur⟩ := hb.ne_nil hwf hk
-      have hu : u ∈ f k := by rw [hur]; simp
-      rw [hur, List.cons_append, setWhileNsmOrBN, cget_block t hwf xs hl hk hb hu,
-        cget_block t hwf os hlo hk hb hu, hc, setWhileNsmOrBN.eq_2, hc]
-      rfl
-    · rw [setWhileNsmOrBN_block _ v _ (f k) _ hb.nodup
-        (by intro u hu; rw [cget_block t hwf xs hl hk hb hu, cget_block t hwf os hlo hk hb hu]; exact hc),
+    cases hc : (cget os k == NSM)
+    · cases hr : (cget os k).removedByX9
+      · obtain ⟨u, r, hur⟩ := hb.ne_nil hwf hk
+        have hu : u ∈ f k := by rw [hur]; simp
+        rw [hur, List.cons_append, setWhileNsmOrBN,
+          cget_block t hwf os hlo hk hb hu, hc, hr, setWhileNsmOrBN.eq_2, hc, hr]
+        rfl
+      · rw [setWhileNsmOrBN_skip _ v _ (f k) _
+          (by intro u hu; rw [cget_block t hwf os hlo hk hb hu]; exact ⟨hc, hr⟩),
+          setWhileNsmOrBN_walk t hwf f os hlo v ks _ hl hw.tail]
+        rw [setWhileNsmOrBN.eq_2, hc, hr]; rfl
+    · rw [setWhileNsmOrBN_block _ v _ (f k) _
+        (by intro u hu; rw [cget_block t hwf os hlo hk hb hu]; exact hc),
         setAll_block t hwf xs hl k hk _ hb, setWhileNsmOrBN_walk t hwf f os hlo v ks _ (by simpa using hl) hw.tail]
       rw [setWhileNsmOrBN.eq_2, hc]; rfl
 
